@@ -587,6 +587,12 @@ class Ledger:
                 used.add(key)
                 cls, reason = ent
                 if cls.startswith("finding"):
+                    if tag and key in self.default_findings:
+                        # the same source site was already reported by the default configuration
+                        self.stats["F same-site-as-default"] += 1
+                        continue
+                    if not tag:
+                        self.default_findings.add(key)
                     rep.violation("PANIC-F", b.key + tag, s["sig"], "reachable panic: %s" % reason, where=where)
                     # make the ordinal of the violation key equal to the ledger ordinal
                 elif cls.startswith("guard:"):
@@ -816,9 +822,11 @@ def run(ctx):
     if ctx.tier == "thorough":
         configs += ["nostd", "fuzz"]
     all_stats = {}
+    default_findings = set()
     for cfgname in configs:
         prog = ctx.prog(cfgname)
         led = Ledger(ctx, prog, cfgname)
+        led.default_findings = default_findings
         led.enumerate()
         guards, stale = led.report(table if cfgname == "default" else table)
         all_stats[cfgname] = {"public_roots": led.n_roots, "reachable_bodies": led.n_bodies, "sites": len(led.sites),
